@@ -30,6 +30,7 @@ import (
 	"strings"
 	"sync"
 	"time"
+	"unicode/utf8"
 
 	"golang.org/x/crypto/openpgp"           //nolint
 	"golang.org/x/crypto/openpgp/clearsign" //nolint
@@ -202,7 +203,20 @@ func c17CheckBlockFor(c *c17Case, name string, provBytes []byte) string {
 	if parts := strings.Split(want, "\n...\n"); len(parts) != 2 || parts[0] != string(meta) || parts[1] != string(sums) {
 		return "the printed block does not split into exactly metadata and sums"
 	}
+	// Misc/ProvYaml.print_sums: for a name of the modelled shape the sums are printed as
+	// files: / two blanks, name, colon, blank, value
+	if c17NameOK(name) && string(sums) != "files:\n  "+name+": sha256:"+c17Hex(c.Archive)+"\n" {
+		return "the printed sums differ from the model's print_sums for a name of the modelled shape"
+	}
 	return ""
+}
+
+// Misc/ProvYaml.name_ok: [A-Za-z0-9._+-]+ with extension .tgz in any letter case
+func c17NameOK(name string) bool {
+	if strings.Trim(name, "abcdefghijklmnopqrstuvwxyzABCDEFGHIJKLMNOPQRSTUVWXYZ0123456789._+-") != "" {
+		return false
+	}
+	return strings.EqualFold(filepath.Ext(name), ".tgz")
 }
 
 func (*c17) ID() string        { return "C17" }
@@ -212,8 +226,12 @@ func (*c17) Rule() string {
 		"mutations, truncations and appends of the archive; bit/byte mutations of provenance body, armor and headers; structural " +
 		"edits (trailing blanks, dash escapes, CRLF, junk around the block, duplicated / edited hash and name lines, provenance " +
 		"re-signed by an untrusted key, attacker block first); renamed archives; keyrings signer / other / both / empty / garbage; " +
-		"each through Signatory.Verify and downloader.VerifyChart, a subset through DownloadTo / LocateChart / Pull with every " +
-		"strategy; non-trivial = the unmutated pair verifies with the signer's keyring and at least one mutant is rejected; " +
+		"each through Signatory.Verify and downloader.VerifyChart; per chart, without random choice: DownloadTo / Manager with every " +
+		"strategy and Pull / LocateChart / the command line with every combination of --verify and --prov against genuine, " +
+		"tampered-archive, tampered-provenance, wrong-name, untrusted-signer, missing-provenance and unloadable-keyring artefacts; " +
+		"Signatories with Entity in {none, A, B} x KeyRing in {empty, A, B, AB, BA, unloadable} x signer in {A, B} built by hand, " +
+		"NewFromFiles and NewFromKeyring (six ids); archive path x provenance path in {file, missing, directory, unreadable}; " +
+		"non-trivial = the unmutated pair verifies with the signer's keyring and at least one mutant is rejected; " +
 		"distinct = hash of (case, observation)"
 }
 
@@ -1163,7 +1181,48 @@ func c17Str(s string) string { return `"` + strings.ReplaceAll(s, `"`, `""`) + `
 
 // digests are opaque to the model: every 64-digit hex digest of a case is renamed
 // injectively to a short token (elaborating string literals dominates the Coq time)
-type c17Tok struct{ m map[string]string }
+type c17Tok struct {
+	m      map[string]string
+	inSums map[string]string // token -> digest, for the tokens printed inside sums tables
+}
+
+// a value of a sums table: as val, and the token is remembered for k_toks
+func (t *c17Tok) sumVal(v string) string {
+	out := t.val(v)
+	if out != v {
+		if t.inSums == nil {
+			t.inSums = map[string]string{}
+		}
+		t.inSums[out[7:]] = v[7:]
+	}
+	return out
+}
+
+func (t *c17Tok) coqToks() string {
+	keys := make([]string, 0, len(t.inSums))
+	for k := range t.inSums {
+		keys = append(keys, k)
+	}
+	sort.Strings(keys)
+	it := make([]string, 0, len(keys))
+	for _, k := range keys {
+		it = append(it, hx.CoqPair(c17Str(k), c17Str(t.inSums[k])))
+	}
+	return hx.CoqList(it)
+}
+
+// part 1 can be written as a Coq string literal as it is
+func c17Printable(s string) bool {
+	if !utf8.ValidString(s) {
+		return false
+	}
+	for i := 0; i < len(s); i++ {
+		if (s[i] < 0x20 && s[i] != '\n') || s[i] == 0x7f {
+			return false
+		}
+	}
+	return true
+}
 
 func (t *c17Tok) hex(h string) string {
 	if len(h) != 64 || strings.Trim(h, "0123456789abcdef") != "" {
@@ -1186,10 +1245,7 @@ func (t *c17Tok) val(v string) string {
 
 func c17CoqTab(tk *c17Tok, t *c17Tab, elide bool) string {
 	if !t.Decoded {
-		return `(mkTab None None false None)`
-	}
-	if elide {
-		return `(mkTab (Some ("", "")) None false None)`
+		return `(mkTab None None false None None)`
 	}
 	sums := "None"
 	if t.SumsOK {
@@ -1200,15 +1256,24 @@ func c17CoqTab(tk *c17Tok, t *c17Tab, elide bool) string {
 		sort.Strings(keys)
 		it := make([]string, 0, len(keys))
 		for _, k := range keys {
-			it = append(it, hx.CoqPair(c17Str(k), c17Str(tk.val(t.Sums[k]))))
+			it = append(it, hx.CoqPair(c17Str(k), c17Str(tk.sumVal(t.Sums[k]))))
 		}
 		sums = "(Some " + hx.CoqList(it) + ")"
+	}
+	if elide {
+		// the model never reads the text of a block whose signature fails; part 1 alone is
+		// kept (with the library's reading of it) for the sums parser
+		if t.TwoParts && len(t.Part1) < 400 && c17Printable(t.Part1) {
+			c17Count("sums_texts_of_failed_signature_blocks_to_the_parser_model", 1)
+			return fmt.Sprintf(`(mkTab (Some ("", "")) None false %s (Some %s))`, sums, c17Str(t.Part1))
+		}
+		return `(mkTab (Some ("", "")) None false None None)`
 	}
 	parts := "None"
 	if t.TwoParts {
 		parts = fmt.Sprintf("(Some (%d, %d))", len(t.Part0), len(t.Part1))
 	}
-	return fmt.Sprintf("(mkTab (Some (%s, %s)) %s %s %s)", c17Str(t.Plaintext), c17Str(t.Bytes), parts, hx.CoqBool(t.MetaOK), sums)
+	return fmt.Sprintf("(mkTab (Some (%s, %s)) %s %s %s None)", c17Str(t.Plaintext), c17Str(t.Bytes), parts, hx.CoqBool(t.MetaOK), sums)
 }
 
 func c17CoqCheck(tk *c17Tok, r *c17Res) string {
@@ -1339,8 +1404,9 @@ func (*c17) CoqCase(ci, oi any) string {
 		}
 		files = append(files, hx.CoqPair(tab, c17CoqFile(tk, f, r)))
 	}
-	return fmt.Sprintf("mkCase %s %s %s %s %s %s %s", c17CoqTab(tk, base, false), hx.CoqList(checks), hx.CoqList(provs), hx.CoqList(dls), hx.CoqList(signs),
-		hx.CoqList(sigs), hx.CoqList(files))
+	baseTab := c17CoqTab(tk, base, false)
+	return fmt.Sprintf("mkCase %s %s %s %s %s %s %s %s", baseTab, hx.CoqList(checks), hx.CoqList(provs), hx.CoqList(dls), hx.CoqList(signs),
+		hx.CoqList(sigs), hx.CoqList(files), tk.coqToks())
 }
 
 func (*c17) Class(ci, oi any) string {
